@@ -174,6 +174,10 @@ def run(case: dict, ctx) -> dict:
         if rng.random() < 0.4:
             desc = w.descriptor_text([f'RW {cap} SPARSE "x.vmdk"'], crlf=rng.random() < 0.3)
         zero_gte = rng.random() < 0.6
+        far = 0
+        if rng.random() < 0.2:
+            # grains at file sectors around and beyond 2^31 (grain table entries are unsigned 32-bit sector numbers)
+            far = rng.choice([(1 << 31) - 3 * grain, 1 << 31, 0xC0000000 + 7 * grain, 0xFFFFFFFF - 40 * grain])
         if rng.random() < 0.35:
             # several small grain tables, some of them absent
             grain = rng.choice([1, 2, 8])
@@ -187,15 +191,25 @@ def run(case: dict, ctx) -> dict:
         sf, layer, meta = w.build_hosted(
             rng, capacity=cap, grain=grain, ngte=ngte, states=st, placement=placement, tag=tag, version=rng.choice([1, 1, 2, 3]),
             zero_gte=zero_gte, redundant=rng.random() < 0.4, descriptor=desc, align_grains=rng.random() < 0.6,
-            tables_after_data=rng.random() < 0.3,
+            tables_after_data=rng.random() < 0.3, far_sector=far,
         )
     elif k == "stream":
-        grain = rng.choice([8, 16, 64, 128])
+        grain = rng.choice([8, 16, 32, 64, 128])
         ngte = rng.choice([512, 512, 128])
         cap = _cap(rng, grain, ngte, 3000 if grain <= 16 else 9000)
-        desc = w.descriptor_text([f'RW {cap} SPARSE "x.vmdk"'], create_type="streamOptimized") if rng.random() < 0.7 else None
-        sf, layer, meta = w.build_stream_optimized(rng, capacity=cap, grain=grain, ngte=ngte, tag=tag, descriptor=desc,
-                                                   level=rng.choice([1, 6, 9]), version=rng.choice([1, 3]))
+        st = None
+        if rng.random() < 0.25:
+            # many grain tables (a directory of more than one sector), most of them absent
+            ngte = rng.choice([4, 16, 64, 512])
+            ngd = rng.randrange(129, 400)
+            cap = ngd * ngte * grain - rng.randrange(0, ngte * grain)
+            ngr = -(-cap // grain)
+            st = {g: "A" for g in rng.sample(range(ngr), min(ngr, 40))}
+            st.update({g + 1: "A" for g in list(st) if g + 1 < ngr and rng.random() < 0.5})
+        desc = w.descriptor_text([f'RW {cap} SPARSE "x.vmdk"'], create_type="streamOptimized") if rng.random() < 0.6 else None
+        sf, layer, meta = w.build_stream_optimized(rng, capacity=cap, grain=grain, ngte=ngte, tag=tag, descriptor=desc, states=st,
+                                                   level=rng.choice([1, 6, 9]), version=rng.choice([1, 3]), slots=rng.random() < 0.4)
+        res["cnt"]["stream_directory_over_one_sector_cases"] = int(-(-cap // (ngte * grain)) > 128)
     elif k == "cowd":
         grain = rng.choice([1, 1, 2, 8, 16, 128])
         if grain <= 2 and rng.random() < 0.7:
@@ -207,7 +221,8 @@ def run(case: dict, ctx) -> dict:
             st = table_states(rng, ngr, 4096, "AAU")
         else:
             st = {g: "A" for g in range(ngr) if rng.random() < (0.6 if ngr < 400 else 60 / ngr)}
-        sf, layer, meta = w.build_cowd(rng, capacity=cap, grain=grain, states=st, placement=placement, tag=tag)
+        far = rng.choice([(1 << 31) - 3 * grain, 1 << 31, 0xC0000000 + 7 * grain, 0xFFFFFFFF - 40 * grain]) if rng.random() < 0.2 else 0
+        sf, layer, meta = w.build_cowd(rng, capacity=cap, grain=grain, states=st, placement=placement, tag=tag, far_sector=far)
     elif k == "sesparse":
         grain = rng.choice([8, 8, 1, 16])
         gts = rng.choice([64, 64, 1, 2, 8])
